@@ -357,6 +357,12 @@ class AsyncWorld:
                 if ws.server_closed or ws.client_closed:
                     sent.append(dict(ev, _refused=True))
                     raise OSError('websocket is closed')
+                k = getattr(ws, 'nsend', 0)
+                ws.nsend = k + 1
+                fa = getattr(ws, 'fail_send_at', None)
+                if fa is not None and (k == fa or (k > fa and getattr(ws, 'fail_send_persist', False))):
+                    sent.append(dict(ev, _refused=True))
+                    raise ConnectionResetError(104, 'Connection reset by peer')
                 sent.append(ev)
                 data = ev.get('bytes') if ev.get('bytes') is not None else ev.get('text')
                 if ws.vanished:
@@ -374,6 +380,16 @@ class AsyncWorld:
                 ws.accepted = True
                 ws.step_accept = w.nstep
             elif t == 'websocket.close':
+                if getattr(ws, 'fail_close', False) and not ws.server_closed:
+                    # the peer is gone: the gateway cannot write the close frame
+                    sent[-1] = dict(ev, _refused=True)
+                    ws.server_closed = True
+                    ws.t_server_closed = w.clock.now
+                    if ws._waiter is not None and not ws._waiter.done():
+                        ws._waiter.set_result(None)
+                    for cb in getattr(ws, 'on_event', []):
+                        cb()
+                    raise ConnectionResetError(104, 'Connection reset by peer')
                 if not ws.accepted:
                     ws.rejected = True
                     ws.body = ev.get('reason')
